@@ -42,9 +42,9 @@ theorem T4_1_powerloss_atomic
 
 `absOfL` adds the third thing recovery reads: the live rollback records `absLog m l` — the records of `l` inside the
 live range `[startLive m, endLive m]` written in the meta (mirror of `seglog::open`), of which `Rollback::read` keeps the
-last `max_rollback_log_len`.  `EvPreL` additionally admits, before the meta write, any `logSet l'` that recovery under
+last `max_rollback_log_len`.  `EvPreL` additionally accepts, before the meta write, any `logSet l'` that recovery under
 the OLD meta cannot tell from the old log (`absLog_append_beyond`: appends beyond the old live range — `Rollback::commit`
-→ `seglog.append`); `PostOKL` additionally admits, after the meta fsync, any `logSet l'` that recovery under the NEW
+→ `seglog.append`); `PostOKL` additionally accepts, after the meta fsync, any `logSet l'` that recovery under the NEW
 meta cannot tell from the log as it was at the meta write (`absLog_filter_keep`, `absLog_drop_lagging`: `prune_oldest` /
 `prune_recent` outside the new live range).  `hflushed` demands the appends durable before the meta write. -/
 
